@@ -207,7 +207,8 @@ def _value_to_cst(value: Any) -> cst.BaseExpression:  # noqa: C901
             )
         return cst.Tuple(elements=[cst.Element(value=_value_to_cst(v)) for v in value])
     if tu.is_set(typ):
-        elems = list(value)
+        # Hash-seed independent order (the iteration order of a set of strings is not).
+        elems = sorted(value, key=repr)
         if not elems:
             # empty set: set()
             return cst.Call(func=cst.Name("set"))
